@@ -472,11 +472,11 @@ def run_cli(doc_bytes, suffix, fow, mode, overwrite, limit=LIMIT):
 def run(run, tier, replay=None):
     rng = run.rng
     thorough = tier == "thorough"
-    N_MUT = 2600 if thorough else 330
+    N_MUT = 6000 if thorough else 900
     N_JUNK_EXTRA = 1 if not thorough else 3
     N_HANDLE = 1500 if thorough else 400
     N_RESOLVE = 2500 if thorough else 500
-    N_CLI = 120 if thorough else 24
+    N_CLI = 160 if thorough else 32
     N_RANDOM_BASE = 10 if thorough else 3
     run.rule = ("handle: every ERROR/WARNING sequence up to length 3 x fail_on_warning in {False, True, default} (exhaustive) + random lists to length 13 of the four error classes with "
                 "explicit or default levels; generate/cli: valid documents (sink, atlas, corpus, random), their single and double node mutations (replace by wrong type / null / empty / 17 "
